@@ -51,6 +51,11 @@ def options():
                                           len('gr\u00fc\u00dfe \u4e16\u754c'.encode()).to_bytes(2, 'big') + 'n\u00f6te@example.org'.encode() + 'gr\u00fc\u00dfe \u4e16\u754c'.encode()))
     o['policy_utf8'] = (ANY, {'policy_uri': 'https://ex\u00e4mple.org/\u65b9\u9488'}, lambda ps: _has(ps, 26, 'https://ex\u00e4mple.org/\u65b9\u9488'.encode()))
     o['policy_uri'] = (ANY, {'policy_uri': 'https://example.org/policy?v=1'}, lambda ps: _has(ps, 26, b'https://example.org/policy?v=1'))
+    # a subpacket of 192..255 octets needs the two-octet subpacket length; a 300-octet value pushes the hashed area past 255 octets (two-octet
+    # area length, v4 trailer length above one octet)
+    o['policy_mid'] = (ANY, {'policy_uri': 'https://example.org/' + 'p' * 180}, lambda ps: _has(ps, 26, b'https://example.org/' + b'p' * 180))
+    o['notation_long'] = (ANY, {'notation': {'long@example.org': 'v' * 300}},
+                          lambda ps: _has(ps, 20, b'\x80\x00\x00\x00\x00\x10\x01\x2clong@example.org' + b'v' * 300))
     o['revocable_false'] = (ANY - {'revoker'}, {'revocable': False}, lambda ps: _has(ps, 7, b'\x00'))
     o['no_issuer_fpr'] = (ANY, {'include_issuer_fingerprint': False},
                           lambda ps: not [sp for sp in ps['hashed_sp'] + ps['unhashed_sp'] if sp['type'] == 33])
@@ -149,6 +154,8 @@ class Prop(object):
             u.append(('subjects', {'signer': signer, 'part': 'docs1'}))
             u.append(('subjects', {'signer': signer, 'part': 'texts'}))
             u.append(('subjects', {'signer': signer, 'part': 'uids'}))
+        for signer in self._signers(tier):
+            u.append(('digestshape', {'signer': signer}))
         u.append(('gpg', {}))
         return u
 
@@ -244,6 +251,45 @@ class Prop(object):
         if stage is not None:
             r.viol('ref-made', dict(tags, stage=stage), case, '%s: %s' % (label, detail))
         return stage
+
+    def c_digestshape(self, case):
+        """Documents chosen (by search with the reference hash input) so that the digest has a leading zero octet, two leading zero octets' worth of
+        small value, a zero second octet or all-ones first octets: the stored left 16 bits and the integer conversions of each algorithm at their edges."""
+        from pgpy.constants import HashAlgorithm
+        r = Res()
+        signer = case['signer']
+        key, raw = S.signer_cert(signer)
+        kpub = key.pubkey
+        for hname in (['SHA256', 'SHA1'] if not case.get('hash') else [case['hash']]):
+            halg = HashAlgorithm[hname]
+            kw = dict(hash=halg, created=K.dt(S.SIG_T))
+            try:
+                probe = rsig.parse_body(wire.read_packet(S.sig_packet_bytes(key.sign(b'probe', **kw)))['body'])
+            except Exception as e:
+                r.outcomes['digestshape:no-probe'] += 1
+                continue
+            want = {'first-octet-zero': lambda d: d[0] == 0, 'second-octet-zero': lambda d: d[1] == 0 and d[0] != 0, 'first-octets-ff': lambda d: d[0] == 0xff,
+                    'first-octet-01': lambda d: d[0] == 1, 'top-bit-set-after-zero': lambda d: d[0] == 0 and d[1] & 0x80}
+            found = {}
+            n = 0
+            while len(found) < len(want) and n < 200000:
+                doc = b'digest shape %d' % n
+                d = rsig.digest(probe['halg'], rsig.hash_input(0, probe['pkalg'], probe['halg'], probe['hashed'], {'doc': doc}))
+                for w, f in want.items():
+                    if w not in found and f(d):
+                        found[w] = doc
+                n += 1
+            for w, doc in sorted(found.items()):
+                if case.get('only') and case['only'] != w:
+                    continue
+                r.states += 2
+                o = {'sig': key.sign(doc, **kw), 'verify_subject': doc, 'verifier': kpub, 'ref_key': raw, 'ref_subject': {'doc': doc}, 'want_type': 0}
+                one = dict(case, only=w, hash=hname)
+                self._check_pgpy_made(r, o, {'subject': 'digestshape', 'cls': w}, one, 'document with digest shape %s (%s, %s)' % (w, signer, hname))
+                self._check_ref_made(r, o, hname, {'subject': 'digestshape', 'cls': w}, one, 'document with digest shape %s (%s, %s)' % (w, signer, hname))
+            r.dim('digest_shape', sorted(found))
+        r.dim('signer', signer)
+        return r
 
     def c_gpg(self, case):
         """Signatures and certifications made by GnuPG 2.2.40 (frozen vectors) must verify under PGPy."""
@@ -341,6 +387,8 @@ class Prop(object):
             'policy_utf8': wire.subpacket(26, 'https://ex\u00e4mple.org/\u65b9\u9488'.encode()),
             'notation_utf8': wire.subpacket(20, b'\x80\x00\x00\x00' + len('n\u00f6te@example.org'.encode()).to_bytes(2, 'big') +
                                             len('gr\u00fc\u00dfe \u4e16\u754c'.encode()).to_bytes(2, 'big') + 'n\u00f6te@example.org'.encode() + 'gr\u00fc\u00dfe \u4e16\u754c'.encode()),
+            'policy_mid': wire.subpacket(26, b'https://example.org/' + b'p' * 180),
+            'notation_long': wire.subpacket(20, b'\x80\x00\x00\x00\x00\x10\x01\x2clong@example.org' + b'v' * 300),
             'reason_utf8': wire.subpacket(29, b'\x03' + 'zur\u00fcckgezogen \u2014 \u9000\u5f79'.encode()),
             'revocable_false': wire.subpacket(7, b'\x00'),
             'no_issuer_fpr': b'',
